@@ -1,3 +1,164 @@
 import TTModel.Proto
-/-! C06 driver — stub (not built yet): answers `bad-op` to everything. -/
-def main : IO Unit := TT.Proto.mainLoop fun _ => "bad-op"
+import TTModel.C06_Heights
+import TTGen.C06_Devices
+/-!
+C06 driver. Requests (sections separated by `|`, numbers `p/q` in mode `R`, 16-hex bit patterns
+in mode `F`; trees as `((0,1),(2,3))` with taxon positions at the leaves):
+
+  trav <n> <tree>                          -> pre … | post … | srt … | fwd … | det …
+  bounds <m> <n> <tree> | s…               -> 2n-1 values
+  rfwd   <m> <n> <tree> | s… | x…          -> n-1 internal heights (ratio transform forward)
+  rinv   <m> <n> <tree> | s… | y…          -> n-1 parameters (ratio transform inverse)
+  rdet   <m> <n> <tree> | s… | y…          -> the n-2 terms whose logs are summed [F: "| sum"]
+  bl     <m> <n> <tree> | s… | h…          -> 2n-2 branch lengths from internal heights h
+  dfwd   <m> <n> <tree> <k> | s… | x…      -> n-1 heights (difference transform; k=0: max)
+  dinv   <m> <n> <tree> <k> | s… | y…      -> n-1 increments
+  leaf   <m> | dates…                      -> leaf heights
+  dev <class> <method> <ratio|difference>  -> kind after the call | none
+  init <class> <argument>                  -> kind installed by the constructor
+-/
+open TT TT.Proto TT.C06
+
+/-! tree parser -/
+partial def parseTreeAux : List Char → Option (BTree × List Char)
+  | '(' :: rest => do
+      let (l, r1) ← parseTreeAux rest
+      match r1 with
+      | ',' :: r2 => do
+          let (r, r3) ← parseTreeAux r2
+          match r3 with
+          | ')' :: r4 => pure (.node l r, r4)
+          | _ => none
+      | _ => none
+  | cs =>
+      let ds := cs.takeWhile Char.isDigit
+      if ds.isEmpty then none else
+      pure (.leaf (String.ofList ds).toNat!, cs.dropWhile Char.isDigit)
+
+def parseTree (s : String) : Option BTree :=
+  match parseTreeAux s.toList with
+  | some (t, []) => some t
+  | _ => none
+
+structure Codec (α : Type) where
+  parse : String → Option α
+  show_ : α → String
+
+def ratC : Codec Rat := ⟨parseRat, showRat⟩
+def floatC : Codec Float := ⟨parseFloatBits, floatBits⟩
+
+def sections (ws : List String) : List (List String) :=
+  ws.splitBy (fun a b => a ≠ "|" && b ≠ "|") |>.filter (· ≠ ["|"])
+
+def vecOf {α} [Zero α] (l : List α) : Nat → α := fun i => l.getD i 0
+
+def showPairs (l : List (Nat × Nat)) : String :=
+  ";".intercalate (l.map fun a => s!"{a.1},{a.2}")
+def showTriples (l : List (Nat × Nat × Nat)) : String :=
+  ";".intercalate (l.map fun a => s!"{a.1},{a.2.1},{a.2.2}")
+
+section generic
+variable {α : Type} [Add α] [Sub α] [Mul α] [Div α] [Zero α] [LT α] [DecidableLT α]
+
+def out (c : Codec α) (f : Nat → α) (len : Nat) : String :=
+  " ".intercalate ((List.range len).map fun i => c.show_ (f i))
+
+def numeric (c : Codec α) (smooth : Option (α → α → α → α)) (logsum : Option (List α → String))
+    (op : String) (n : Nat) (t : BTree) (k : Option α) (secs : List (List String)) : String :=
+  let nums : List (Option (List α)) := secs.map fun s => s.mapM c.parse
+  match nums.mapM id with
+  | none => "bad-op"
+  | some vs =>
+    let s := vecOf (vs.getD 0 [])
+    let v := vecOf (vs.getD 1 [])
+    let lens := vs.map List.length
+    let post := postorder n t
+    let b := bounds n s post
+    let okS := lens.getD 0 0 == n
+    let okV := lens.getD 1 0 == n - 1
+    let mx : Option (α → α → α) := match k, smooth with
+      | none, _ => some max2
+      | some kv, some sm => some (sm kv)
+      | some _, none => none
+    match op with
+    | "bounds" => if okS && lens.length == 1 then out c b (2 * n - 1) else "bad-op"
+    | "rfwd" => if okS && okV then out c (ratioFwd n b (forwardIndices n t) v) (n - 1) else "bad-op"
+    | "rinv" => if okS && okV then out c (ratioInv n b (indicesSorted n t) v) (n - 1) else "bad-op"
+    | "rdet" =>
+      if okS && okV then
+        let terms := ratioDetTerms n b (detIndices n t) v
+        " ".intercalate (terms.map c.show_) ++ (match logsum with | some f => " | " ++ f terms | none => "")
+      else "bad-op"
+    | "bl" =>
+      if okS && okV then " ".intercalate ((branchLengths (indicesSorted n t) (nodeHeights n s v)).map c.show_)
+      else "bad-op"
+    | "dfwd" => match mx with
+      | some m => if okS && okV then out c (diffFwd n m s post v) (n - 1) else "bad-op"
+      | none => "bad-op"
+    | "dinv" => match mx with
+      | some m => if okS && okV then out c (diffInv n m s post v) (n - 1) else "bad-op"
+      | none => "bad-op"
+    | _ => "bad-op"
+
+def leafOp (c : Codec α) (ws : List String) : String :=
+  match ws.mapM c.parse with
+  | some ds => " ".intercalate ((leafHeights ds).map c.show_)
+  | none => "bad-op"
+end generic
+
+def floatLogSum (l : List Float) : String := floatBits ((l.map Float.log).foldl (· + ·) 0.0)
+
+def parseKind : String → Option Kind
+  | "ratio" => some .ratio | "difference" => some .difference | _ => none
+def showKind : Kind → String | .ratio => "ratio" | .difference => "difference"
+
+def wellShaped (n : Nat) (t : BTree) : Bool :=
+  t.tips.length == n && (t.tips.mergeSort (· ≤ ·)) == List.range n
+
+def handle (line : String) : String :=
+  match splitWords line with
+  | ["trav", n, tr] =>
+    match n.toNat?, parseTree tr with
+    | some n, some t =>
+      if !wellShaped n t then "bad-op" else
+      s!"pre {showPairs (preorder n t)} | post {showTriples (postorder n t)} | srt {showPairs (indicesSorted n t)} | fwd {showPairs (forwardIndices n t)} | det {",".intercalate ((detIndices n t).map toString)}"
+    | _, _ => "bad-op"
+  | "leaf" :: m :: "|" :: ws =>
+    if m == "R" then leafOp ratC ws else if m == "F" then leafOp floatC ws else "bad-op"
+  | ["dev", cls, meth, kind] =>
+    match parseKind kind, TTGen.C06Devices.table.find? (fun e => e.1 == cls && e.2.1 == meth) with
+    | some k, some e => match e.2.2.apply k with
+      | some k' => showKind k'
+      | none => "none"
+    | _, _ => "bad-op"
+  | ["init", cls, arg] =>
+    match TTGen.C06Devices.inits.find? (fun e => e.1 == cls && e.2.1 == arg) with
+    | some e => showKind e.2.2
+    | none => "bad-op"
+  | op :: m :: n :: tr :: rest =>
+    match n.toNat?, parseTree tr with
+    | some n, some t =>
+      if !wellShaped n t || n < 2 then "bad-op" else
+      let (kstr, rest) := match rest with
+        | "|" :: _ => (none, rest)
+        | k :: r => (some k, r)
+        | [] => (none, [])
+      let secs := sections rest
+      if m == "R" then
+        match kstr with
+        | none => numeric ratC none none op n t none secs
+        | some "0" => numeric ratC none none op n t none secs
+        | some _ => "bad-op"
+      else if m == "F" then
+        let sm : Float → Float → Float → Float := fun k a b => smoothMax k a b
+        match kstr with
+        | none => numeric floatC (some sm) (some floatLogSum) op n t none secs
+        | some "0" => numeric floatC (some sm) (some floatLogSum) op n t none secs
+        | some ks => match parseFloatBits ks with
+          | some k => numeric floatC (some sm) (some floatLogSum) op n t (some k) secs
+          | none => "bad-op"
+      else "bad-op"
+    | _, _ => "bad-op"
+  | _ => "bad-op"
+
+def main : IO Unit := mainLoop handle
